@@ -20,7 +20,7 @@ if $applies; then
   suite_summary=$(echo "$out" | grep -E "Summary" | tail -1 | sed 's/^ *//')
   fails=$(echo "$out" | grep -E "^\s+FAIL " | awk '{print $NF}' | sort -u | tr '\n' ' ')
   if echo "$suite_summary" | grep -q "55 passed, 1 failed" && [ "$(echo $fails)" = "expand_env_vars_tests" -o "$(echo $fails)" = "append::test::expand_env_vars_tests" ]; then suite_ok=true; fi
-  if [ -f "$D/demo_test.rs" ]; then cp "$D/demo_test.rs" tests/demo_test.rs; DEMO="cargo test --offline --test demo_test"; else cp "$D/demo.rs" examples/vdemo.rs; DEMO="cargo run --offline --example vdemo"; fi
+  if [ -f "$D/demo_test.rs" ]; then cp "$D/demo_test.rs" tests/demo_test.rs; DEMO="cargo test --offline ${DEMO_FEATURES:-} --test demo_test"; else cp "$D/demo.rs" examples/vdemo.rs; DEMO="cargo run --offline --example vdemo"; fi
   if ! $DEMO >/tmp/vseed-demo-with.log 2>&1; then
      # a compile error is not a failing demonstration
      if ! grep -q "could not compile" /tmp/vseed-demo-with.log; then demo_fails_with=true; fi
